@@ -30,6 +30,10 @@ import (
 )
 
 const c06Chain = "eth-main"
+
+// a second remote chain, on which every validator has a different account (key): signatures for its queue must be
+// made with, and stored under, that chain's key
+const c06Chain2 = "bnb-main"
 const c06ERC20 = "0x00000000000000000000000000000000000000E1"
 
 // c06Recover returns the address that signed hash (with the ethereum message prefix), independent of the
@@ -58,7 +62,7 @@ func TestC06_StoredSignaturesAlwaysValid(t *testing.T) {
 		for i := range stakes {
 			stakes[i] = 100_000_000
 		}
-		c, err := chain.New(chain.Options{Salt: salt, Stakes: stakes, InitialHeight: 44, Users: []string{"ub"}, EvmChains: []chain.EvmChain{{RefID: c06Chain, ChainID: 1}}})
+		c, err := chain.New(chain.Options{Salt: salt, Stakes: stakes, InitialHeight: 44, Users: []string{"ub"}, EvmChains: []chain.EvmChain{{RefID: c06Chain, ChainID: 1}, {RefID: c06Chain2, ChainID: 56}}})
 		if err != nil {
 			t.Fatalf("boot: %v", err)
 		}
@@ -75,6 +79,7 @@ func TestC06_StoredSignaturesAlwaysValid(t *testing.T) {
 		pl, _ := json.Marshal(evmtypes.JobPayload{HexPayload: "0xdeadbeef"})
 		res, err := c.Block(
 			c.MustSign(ub, &schedtypes.MsgCreateJob{Metadata: chain.MD(ub), Job: &schedtypes.Job{ID: "j1", Routing: schedtypes.Routing{ChainType: "evm", ChainReferenceID: c06Chain}, Definition: def, Payload: pl}},
+				&schedtypes.MsgCreateJob{Metadata: chain.MD(ub), Job: &schedtypes.Job{ID: "j2", Routing: schedtypes.Routing{ChainType: "evm", ChainReferenceID: c06Chain2}, Definition: def, Payload: pl}},
 				&skywaytypes.MsgSendToRemote{Metadata: chain.MD(ub), EthDest: "0x00000000000000000000000000000000000000d1", Amount: sdk.NewCoin(tok.Denom, sdkmath.NewInt(100)), ChainReferenceId: c06Chain}))
 		if err != nil || res.TxResults[0].Code != 0 {
 			t.Fatalf("setup: %v %v", err, res)
@@ -83,6 +88,7 @@ func TestC06_StoredSignaturesAlwaysValid(t *testing.T) {
 			t.Fatalf("advance: %v", err)
 		}
 		q := chain.TurnstoneQueue(c06Chain)
+		q2 := chain.TurnstoneQueue(c06Chain2)
 		// model: registered key per validator (history), key generation counter
 		keyGen := make([]int, n)
 		curKey := func(i int) string { return chain.EthAddr(c.Vals[i].EthKeys[c06Chain]).Hex() }
@@ -90,6 +96,7 @@ func TestC06_StoredSignaturesAlwaysValid(t *testing.T) {
 		signedWith := map[string]map[string]string{}
 		var log []string
 		changedAfterSig, rekeyBetween := false, false
+		acrossChains := false
 		sigCount := 0
 		itemHadSig := map[string]bool{}
 		lastBytes := map[string]string{}
@@ -100,6 +107,11 @@ func TestC06_StoredSignaturesAlwaysValid(t *testing.T) {
 			if err != nil {
 				t.Fatalf("queue: %v", err)
 			}
+			ms2, err := c.App.ConsensusKeeper.GetMessagesFromQueue(ctx, q2, 0)
+			if err != nil {
+				t.Fatalf("queue: %v", err)
+			}
+			ms = append(ms, ms2...)
 			for _, m := range ms {
 				item := fmt.Sprintf("msg-%d", m.GetId())
 				bz, err := m.GetBytesToSign(c.App.AppCodec())
@@ -186,8 +198,9 @@ func TestC06_StoredSignaturesAlwaysValid(t *testing.T) {
 
 		t.Repeat(map[string]func(*rapid.T){
 			"executeJob": func(t *rapid.T) {
-				oks := block(t, c.MustSign(ub, &schedtypes.MsgExecuteJob{Metadata: chain.MD(ub), JobID: "j1"}))
-				log = append(log, fmt.Sprintf("exec=%v", oks[0]))
+				job := rapid.SampledFrom([]string{"j1", "j1", "j2"}).Draw(t, "job")
+				oks := block(t, c.MustSign(ub, &schedtypes.MsgExecuteJob{Metadata: chain.MD(ub), JobID: job}))
+				log = append(log, fmt.Sprintf("exec(%s)=%v", job, oks[0]))
 				checkAll(t)
 			},
 			"signMessage": func(t *rapid.T) {
@@ -232,6 +245,46 @@ func TestC06_StoredSignaturesAlwaysValid(t *testing.T) {
 					}
 					note(item, c.Vals[i].Val().String(), signedBy)
 					sigCount++
+				}
+				checkAll(t)
+			},
+			// one request carrying signatures for messages of both chains. Variants: each under the right chain's key
+			// (valid); or the second entry names - and is made with - the validator's account of the FIRST chain, which is
+			// not its registered key on the second chain
+			"signAcrossChains": func(t *rapid.T) {
+				ms1, _ := c.App.ConsensusKeeper.GetMessagesFromQueue(c.ReadCtx(), q, 0)
+				ms2, _ := c.App.ConsensusKeeper.GetMessagesFromQueue(c.ReadCtx(), q2, 0)
+				if len(ms1) == 0 || len(ms2) == 0 {
+					t.Skip("a queue is empty")
+				}
+				m1 := ms1[rapid.IntRange(0, len(ms1)-1).Draw(t, "msg1")]
+				m2 := ms2[rapid.IntRange(0, len(ms2)-1).Draw(t, "msg2")]
+				i := rapid.IntRange(0, n-1).Draw(t, "val")
+				v := c.Vals[i]
+				item1, item2 := fmt.Sprintf("msg-%d", m1.GetId()), fmt.Sprintf("msg-%d", m2.GetId())
+				if signedWith[item1][v.Val().String()] != "" || signedWith[item2][v.Val().String()] != "" {
+					t.Skip("already signed one of them")
+				}
+				bz1, _ := m1.GetBytesToSign(c.App.AppCodec())
+				bz2, _ := m2.GetBytesToSign(c.App.AppCodec())
+				k1, k2 := v.EthKeys[c06Chain], v.EthKeys[c06Chain2]
+				a1, a2 := chain.EthAddr(k1).Hex(), chain.EthAddr(k2).Hex()
+				wrongChainKey := rapid.Bool().Draw(t, "secondUnderFirstChainsKey")
+				second := &consensustypes.ConsensusMessageSignature{Id: m2.GetId(), QueueTypeName: q2, Signature: chain.EthSign(k2, bz2), SignedByAddress: a2}
+				if wrongChainKey {
+					second = &consensustypes.ConsensusMessageSignature{Id: m2.GetId(), QueueTypeName: q2, Signature: chain.EthSign(k1, bz2), SignedByAddress: a1}
+				}
+				first := &consensustypes.ConsensusMessageSignature{Id: m1.GetId(), QueueTypeName: q, Signature: chain.EthSign(k1, bz1), SignedByAddress: a1}
+				oks := block(t, c.MustSign(v.Actor, &consensustypes.MsgAddMessagesSignatures{Metadata: chain.MD(v.Actor), SignedMessages: []*consensustypes.ConsensusMessageSignature{first, second}}))
+				log = append(log, fmt.Sprintf("signAcross(v%d,%s,%s,wrongChainKey=%v)=%v", i, item1, item2, wrongChainKey, oks[0]))
+				if oks[0] {
+					if wrongChainKey {
+						t.Fatalf("a signature for %s (chain %s) made with v%d's %s account was accepted\nhistory: %v", item2, c06Chain2, i, c06Chain, log)
+					}
+					note(item1, v.Val().String(), a1)
+					note(item2, v.Val().String(), a2)
+					sigCount += 2
+					acrossChains = true
 				}
 				checkAll(t)
 			},
@@ -335,6 +388,9 @@ func TestC06_StoredSignaturesAlwaysValid(t *testing.T) {
 		}
 		if rekeyBetween {
 			labels = append(labels, "rekeyBetweenSignatures")
+		}
+		if acrossChains {
+			labels = append(labels, "oneRequestSignedForTwoChains")
 		}
 		evid.Case(t.Name(), strings.Join(log, " "), changedAfterSig || rekeyBetween, labels, func() any { return log })
 		freedKeys = nil
